@@ -11,7 +11,7 @@ def describe(tier):
         rule="history system: from every validated object of the history sub-universe (live poisoned neighbours flush on both sides; in the thorough tier "
         "also from every state one legal assignment later), every misuse of the property's list at every element position: index tuples with a "
         "component in {-1, dim, dim+1} (read and write), whole-array update of other length / other shape with equal item count, string longer than "
-        "the space fixed at creation (by 1 byte, a slot, many), same-length list with one larger dynamic item (first item; last item in memory order with the earlier ones replaced / shrunk so that the total does not grow), whole-struct dictionary whose last dynamic part is too large while earlier fields change, non-member value for a union reference; "
+        "the space fixed at creation (by 1 byte, a slot, many; multi-byte text that fits in characters but not in bytes), same-length list with one larger dynamic item (first item; last item in memory order with the earlier ones replaced / shrunk so that the total does not grow), whole-struct dictionary whose last dynamic part is too large while earlier fields change, non-member value for a union reference; "
         "plus constructor misuse on the whole universe (_buffer of another context together with _context; _offset without _buffer). "
         "Oracle: an exception is raised and victim + neighbours read back unchanged.",
         bounds=dict(history_types=len(universe.rh(tier)), legal_prefix_depth=0 if tier == "quick" else 1),
@@ -132,7 +132,7 @@ def misuse_menu(s, opts, d):
                 evs.append(("x-struct", via, path))
             evs.append(("x-struct-xobj", "h", path))
         elif nt[0] == "Str" and path:
-            for extra in (1, 8, 64):
+            for extra in (1, 8, 64, "mb", "mb4"):
                 for via in ("h", "v"):
                     evs.append(("x-str", via, path, extra))
         elif nt[0] == "U" and path:
@@ -183,7 +183,14 @@ def apply_misuse(s, ev):
         hand.assign(rt, rh, path, arg)
     elif kind == "x-str":
         room = s.rooms[ev[2]]
-        hand.assign(rt, rh, path, "L" * (room + ev[3]))
+        if ev[3] == "mb":  # fits when counted in characters, too long in UTF-8 bytes
+            val = "é" * (room // 2 + 1)
+        elif ev[3] == "mb4":
+            val = "\U0001f600" * (room // 4 + 1)
+        else:
+            val = "L" * (room + ev[3])
+        assert len(val.encode("utf8")) > room
+        hand.assign(rt, rh, path, val)
     elif kind == "x-items":
         variant = ev[3]
         items = dict(nv["items"])
